@@ -29,7 +29,7 @@ func Check(p *lp.Program) string {
 	if res.Panic != nil {
 		return fmt.Sprintf("panic while logging: %v", res.Panic)
 	}
-	for _, ws := range [][]lp.Write{res.Writes, res.Other} {
+	for _, ws := range res.Dests {
 		for i, w := range ws {
 			if _, err := jsonref.ValidateLine(w.Data); err != nil {
 				return fmt.Sprintf("write %d is not one well-formed JSON line: %v: %q", i, err, w.Data)
@@ -58,6 +58,23 @@ func TestRapidPrograms(t *testing.T) {
 	})
 }
 
+func TestRapidTrees(t *testing.T) {
+	rapid.Check(t, func(rt *rapid.T) {
+		cfg := lp.DefaultCfg()
+		cfg.Tree = true
+		cfg.MaxOps = 4
+		g := lp.NewG(rt, cfg)
+		p := g.Program(8, 5)
+		record(p)
+		rec.Class("tree-program", 1)
+		if msg := Check(p); msg != "" {
+			ev.SaveReplay("C01-tree", p)
+			fmt.Printf("VERIF-FAIL: %s\n", msg)
+			rt.Fatalf("%s", msg)
+		}
+	})
+}
+
 func TestReplay(t *testing.T) {
 	f := os.Getenv("VERIF_REPLAY")
 	if f == "" {
@@ -78,4 +95,175 @@ func TestReplay(t *testing.T) {
 		ev.SaveReplay("C01-replay", &p)
 		t.Fatalf("%s", msg)
 	}
+}
+
+func TestRegress(t *testing.T) {
+	dir := os.Getenv("VERIF_ROOT") + "/known/regress/C01"
+	fs, _ := os.ReadDir(dir)
+	for _, e := range fs {
+		b, err := os.ReadFile(dir + "/" + e.Name())
+		if err != nil {
+			t.Fatal(err)
+		}
+		var p lp.Program
+		if err := json.Unmarshal(b, &p); err != nil {
+			t.Fatal(err)
+		}
+		rec.Case(b, true, "regress")
+		if msg := Check(&p); msg != "" {
+			ev.SaveReplay("C01-regress-"+e.Name(), &p)
+			t.Fatalf("%s: %s", e.Name(), msg)
+		}
+	}
+}
+
+// emptyShapes: every container / nil-able entry point with nothing in it.
+func emptyShapes() []lp.Op {
+	var out []lp.Op
+	k := func(t string, v lp.Val) { v.T = t; out = append(out, lp.Op{K: []byte("e"), V: v}) }
+	nk := func(t string, v lp.Val) { v.T = t; out = append(out, lp.Op{V: v}) }
+	k("dict", lp.Val{})
+	k("arr", lp.Val{})
+	k("arrm", lp.Val{})
+	k("obj", lp.Val{})
+	k("obj", lp.Val{Nil: true})
+	nk("embed", lp.Val{})
+	nk("embed", lp.Val{Nil: true})
+	nk("fieldsmap", lp.Val{})
+	nk("fieldsslice", lp.Val{})
+	nk("func", lp.Val{})
+	for _, st := range []string{"strs", "stringers", "bools", "ints", "ints8", "ints16", "ints32", "ints64", "uints", "uints8", "uints16", "uints32", "uints64", "floats32", "floats64", "times", "durs", "errs"} {
+		k(st, lp.Val{Nil: true})
+		k(st, lp.Val{L: []lp.Val{}})
+		if st != "stringers" && st != "uints8" {
+			nk("fieldsslice", lp.Val{Ops: []lp.Op{{K: []byte("f"), V: lp.Val{T: st, Nil: true}}}})
+			nk("fieldsmap", lp.Val{Ops: []lp.Op{{K: []byte("f"), V: lp.Val{T: st, L: []lp.Val{}}}}})
+		}
+	}
+	k("bytes", lp.Val{Nil: true})
+	k("hex", lp.Val{Nil: true})
+	k("str", lp.Val{})
+	k("stringer", lp.Val{Nil: true})
+	k("anerr", lp.Val{EK: "nil"})
+	k("anerr", lp.Val{EK: "typednil"})
+	nk("err", lp.Val{EK: "nil"})
+	nk("err", lp.Val{EK: "typednil"})
+	k("iface", lp.Val{If: &lp.Iface{K: "nil"}})
+	k("iface", lp.Val{If: &lp.Iface{K: "ptrnil"}})
+	k("iface", lp.Val{If: &lp.Iface{K: "list"}})
+	k("iface", lp.Val{If: &lp.Iface{K: "map"}})
+	k("iface", lp.Val{If: &lp.Iface{K: "objmarshaler"}})
+	k("type", lp.Val{If: &lp.Iface{K: "nil"}})
+	k("ip", lp.Val{Nil: true})
+	k("mac", lp.Val{Nil: true})
+	k("rawcbor", lp.Val{})
+	k("errs", lp.Val{L: []lp.Val{{T: "anerr", EK: "nil"}, {T: "anerr", EK: "typednil"}}})
+	k("stringers", lp.Val{L: []lp.Val{{T: "stringer", Nil: true}}})
+	k("arr", lp.Val{L: []lp.Val{{T: "obj"}, {T: "dict"}, {T: "anerr", EK: "nil"}}})
+	for _, pt := range []string{"str", "bool", "int", "int8", "int16", "int32", "int64", "uint", "uint8", "uint16", "uint32", "uint64", "float32", "float64", "time", "dur"} {
+		nk("fieldsslice", lp.Val{Ops: []lp.Op{{K: []byte("p"), V: lp.Val{T: pt, Ptr: true, Nil: true}}}})
+	}
+	nk("fieldsmap", lp.Val{Ops: []lp.Op{{K: []byte("n"), V: lp.Val{T: "nil"}}}})
+	nk("fieldsslice", lp.Val{Ops: []lp.Op{{K: []byte("n"), V: lp.Val{T: "anerr", EK: "nil"}}, {K: []byte("m"), V: lp.Val{T: "errs", L: []lp.Val{}}}, {K: []byte("o"), V: lp.Val{T: "obj"}}}})
+	nk("stack", lp.Val{})
+	return out
+}
+
+func ctxOK(t string) bool {
+	switch t {
+	case "rawcbor", "timediff", "stringers", "func", "getctx":
+		return false
+	}
+	return true
+}
+
+// TestEmptyShapes: every empty shape alone / first / middle / last, in Event and in
+// Context, flat and nested inside Dict/Object/Array, under default settings and with
+// an empty level field, with and without a stack marshaler returning nil.
+func TestEmptyShapes(t *testing.T) {
+	shapes := emptyShapes()
+	s := lp.Op{K: []byte("s"), V: lp.Val{T: "str", S: []byte("v")}}
+	var n int
+	run := func(p *lp.Program) {
+		n++
+		record(p)
+		if msg := Check(p); msg != "" {
+			ev.SaveReplay("C01-empty", p)
+			fmt.Printf("VERIF-FAIL: %s\n", msg)
+			t.Fatalf("%s", msg)
+		}
+	}
+	sets := []lp.Settings{lp.DefaultSettings(), lp.DefaultSettings(), lp.DefaultSettings()}
+	empty := []byte{}
+	sets[1].LevelField = &empty
+	sets[2].StackMarshal = "nil"
+	for _, set := range sets {
+		for _, sh := range shapes {
+			for _, seq := range [][]lp.Op{{sh}, {sh, s}, {s, sh}, {s, sh, s}, {sh, sh}, {s, sh, sh, s}} {
+				run(lp.P(set, nil, lp.Ev(seq...)))
+				run(lp.P(set, nil, lp.Ev(lp.Op{V: lp.Val{T: "stack"}}, lp.KV("d", lp.Val{T: "dict", Ops: seq}), lp.KV("o", lp.Val{T: "obj", Ops: seq}), lp.Op{V: lp.Val{T: "embed", Ops: seq}}, lp.Op{V: lp.Val{T: "func", Ops: seq}})))
+				if ctxOK(sh.V.T) {
+					run(lp.P(set, []lp.Step{lp.With(seq...)}, lp.Ev()))
+					run(lp.P(set, []lp.Step{lp.With(seq...)}, lp.Ev(s)))
+					run(lp.P(set, []lp.Step{lp.With(s), lp.With(seq...), lp.With(lp.Op{V: lp.Val{T: "stack"}}), {Kind: "update", Ops: seq}}, lp.Ev(seq...)))
+					run(lp.P(set, []lp.Step{lp.With(), {Kind: "hook", Hooks: []lp.HookSpec{{Kind: "add", ID: 1, Ops: seq}}}}, lp.Ev(), lp.Ev(s)))
+				}
+			}
+		}
+	}
+	rec.Exhaustive(fmt.Sprintf("%d empty/nil shapes x 6 positions x {event, nested dict/obj/embed/func, context, update, hook} x 3 settings = %d programs", len(shapes), n))
+}
+
+func sigmaStrings(maxLen int, f func([]byte)) {
+	var rec func(prefix []byte, l int)
+	rec = func(prefix []byte, l int) {
+		f(prefix)
+		if l == maxLen {
+			return
+		}
+		for _, s := range lp.Sigma {
+			rec(append(append([]byte{}, prefix...), s...), l+1)
+		}
+	}
+	rec(nil, 0)
+}
+
+// TestSigmaExhaustive: every Sigma-string up to a small length as key and as value of every
+// text-carrying type through Event, Context, Array, Dict and Fields.
+func TestSigmaExhaustive(t *testing.T) {
+	maxLen := 2
+	if ev.Thorough() {
+		maxLen = 3
+	}
+	sh, nsh := ev.Shard()
+	set := lp.DefaultSettings()
+	i := 0
+	var n int64
+	sigmaStrings(maxLen, func(s []byte) {
+		i++
+		if i%nsh != sh {
+			return
+		}
+		vs := []lp.Val{{T: "str", S: s}, {T: "bytes", S: s}, {T: "anerr", EK: "plain", S: s}, {T: "anerr", EK: "objerr", S: s}, {T: "stringer", S: s}, {T: "iface", If: &lp.Iface{K: "str", S: s}}, {T: "iface", If: &lp.Iface{K: "map", MK: [][]byte{s}, L: []lp.Iface{{K: "str", S: s}}}}}
+		var ops, cops []lp.Op
+		for _, v := range vs {
+			ops = append(ops, lp.Op{K: s, V: v})
+			cops = append(cops, lp.Op{K: s, V: v})
+		}
+		ops = append(ops, lp.Op{K: s, V: lp.Val{T: "arr", L: []lp.Val{{T: "str", S: s}, {T: "bytes", S: s}, {T: "anerr", EK: "plain", S: s}}}},
+			lp.Op{K: s, V: lp.Val{T: "dict", Ops: []lp.Op{{K: s, V: lp.Val{T: "str", S: s}}}}},
+			lp.Op{V: lp.Val{T: "fieldsmap", Ops: []lp.Op{{K: s, V: lp.Val{T: "str", S: s}}}}},
+			lp.Op{V: lp.Val{T: "fieldsslice", Ops: []lp.Op{{K: s, V: lp.Val{T: "bytes", S: s}}, {K: s, V: lp.Val{T: "anerr", EK: "plain", S: s}}, {K: s, V: lp.Val{T: "strs", L: []lp.Val{{S: s}, {S: s}}}}}}},
+			lp.Op{K: s, V: lp.Val{T: "strs", L: []lp.Val{{S: s}}}}, lp.Op{K: s, V: lp.Val{T: "errs", L: []lp.Val{{EK: "plain", S: s}}}}, lp.Op{V: lp.Val{T: "err", EK: "plain", S: s}})
+		p := lp.P(set, []lp.Step{lp.With(cops...)}, lp.EventSpec{Method: "info", Ops: ops, Fin: "msg", Msg: s})
+		p.Set.MessageField = &s
+		n++
+		if msg := Check(p); msg != "" {
+			ev.SaveReplay("C01-sigma", p)
+			fmt.Printf("VERIF-FAIL: %s\n", msg)
+			t.Fatalf("%s", msg)
+		}
+	})
+	rec.Bulk(n, n-1, "sigma-exhaustive")
+	rec.Exhaustive(fmt.Sprintf("all strings over the %d-symbol class alphabet up to length %d (shard %d/%d) as key, message, field name and text value through Event/Context/Array/Dict/Fields/slices", len(lp.Sigma), maxLen, sh, nsh))
 }
